@@ -64,14 +64,67 @@ class Check(PropertyCheck):
             lines.append(f"ticks {rng.randint(0, 60)} {rng.choice([15, 1, 4, 9, 100])}")
             if kind == 2 and hist:
                 # explicit machine for every entry (history replay passes machine ids)
+                from impl import parse_instance
+                jobs_ = parse_instance(next(l for l in lines if l.startswith("inst")).split()[1:])
                 flat = []
                 for j, p, m in hist:
-                    flat += [j, p, m]
-                if "none" not in flat:
-                    lines.append("animate " + " ".join(flat))
+                    flat += [j, p, str(jobs_[int(j)][int(p)][0][0]) if m == "none" else m]
+                lines.append("animate " + " ".join(flat))
             meta = dict(sc.meta)
             meta.update({"kind": "chart" if kind != 2 else "animate", "count": len(hist)})
             yield Scenario(lines, meta)
+
+    @staticmethod
+    def solver_frames(impl):
+        """Frames generated from a SOLVER (no recorded history given) whose rule is not deterministic (the built-in random rule):
+        all frames belong to ONE run - each shows the previous frame's bars plus one, the last one is complete, and the time axis of
+        every frame ends at that run's makespan."""
+        import warnings
+        import matplotlib.pyplot as plt
+        from impl_ext import read_chart, _FakeFigure, _vid, _pgc
+        from job_shop_lib.dispatching.rules import DispatchingRuleSolver
+        inst = impl.instance
+        if inst.num_operations < 3 or inst.num_operations > 12:
+            return []
+        shots = []
+
+        def plot_function(schedule, makespan=None, available_operations=None, current_time=None):
+            with warnings.catch_warnings():
+                warnings.simplefilter("ignore")
+                fig, ax = _pgc.plot_gantt_chart(schedule, xlim=makespan)
+                bars, _, _, lim = read_chart(ax)
+                plt.close(fig)
+            ends = [x.end_time for ms in schedule.schedule for x in ms]
+            shots.append((sorted(bars), int(lim[1] + 0.5), max(ends, default=0), schedule.is_complete()))
+            return _FakeFigure([], None)
+        old_close = _vid.plt.close
+        _vid.plt.close = lambda *a, **k: None
+        try:
+            calls = [0]
+
+            def stateful_rule(dispatcher):
+                # a user rule with memory (round robin over the available operations): legal, and never the same run twice
+                ops = dispatcher.available_operations()
+                calls[0] += 1
+                return ops[(calls[0] * 7 + calls[0] // 3) % len(ops)]
+            _vid.create_gantt_chart_frames("D", inst, DispatchingRuleSolver(dispatching_rule=stateful_rule, machine_chooser="random"),
+                                           plot_function)
+        finally:
+            _vid.plt.close = old_close
+        res = []
+        if len(shots) != inst.num_operations:
+            return [("frame-count", f"{len(shots)} frames from a solver run over {inst.num_operations} operations")]
+        from collections import Counter
+        for k in range(1, len(shots)):
+            if (Counter(shots[k - 1][0]) - Counter(shots[k][0])) or len(shots[k][0]) != k + 1:
+                res.append(("frame-content", f"solver frames: frame {k + 1} shows {shots[k][0]}, which is not frame {k}'s bars "
+                            f"{shots[k - 1][0]} plus one operation (frames of different runs?)"))
+                return res
+        final_mk = shots[-1][2]
+        if not shots[-1][3] or any(s[1] != final_mk for s in shots):
+            res.append(("frame-xlim", f"solver frames: time axes end at {sorted(set(s[1] for s in shots))}, the run shown ends at {final_mk} "
+                        f"(complete: {shots[-1][3]})"))
+        return res
 
     @staticmethod
     def plotter_reuse(impl, hist):
@@ -183,5 +236,7 @@ class Check(PropertyCheck):
                 if got != sorted(placed):
                     res.append(("frame-content", f"frame {k} shows {got}, the first {k} dispatched operations are {sorted(placed)}"))
                     break
-            res += self.plotter_reuse(impl, hist)
+            # the two supplementary exercises take turns (both draw real figures)
+            self._anim = getattr(self, "_anim", 0) + 1
+            res += self.plotter_reuse(impl, hist) if self._anim % 2 else self.solver_frames(impl)
         return res
